@@ -1,7 +1,7 @@
 (* Properties/C17.v — Ticks are few enough, nice, ascending, inside the domain; Nice only expands.
    ONLY statements; each is closed by [exact] of a lemma from Proofs/Ticks*.v. *)
 From Coq Require Import Sorted.
-From MM Require Import Base.Num Model.Ticks Proofs.Ticks Proofs.TicksLinear Proofs.TicksNice Proofs.TicksLog Check.C17 Proofs.TicksCheck.
+From MM Require Import Base.Num Model.Ticks Proofs.Ticks Proofs.TicksLinear Proofs.TicksNice Proofs.TicksLog Proofs.TicksLogExp Check.C17 Proofs.TicksCheck.
 Local Open Scope Z_scope.
 
 (* ================= FindLevel (ticks.go:56-101) ================= *)
@@ -227,6 +227,27 @@ Theorem C17_log_ticks : forall b mn mx o major minor lo hi,
     (0 <= l -> Z.of_nat (length major) <= o_max o).
 Proof. exact log_ticks_correct. Qed.
 Print Assumptions C17_log_ticks.
+
+(* The integer logarithms behind the admitted exponents are the real-valued ones, stated with
+   powers only: for every base >= 2 and every positive rational q,
+   floor_log b q is THE exponent n with b^n <= q < b^(n+1)  (= floor(log_b q)), and
+   ceil_log b q is THE exponent n with b^(n-1) < q <= b^n   (= ceil(log_b q)) *)
+Theorem C17_floor_log_is_floor_of_log : forall b q, 2 <= b -> (0 < q)%Q ->
+  ((qpow b (floor_log b q) <= q)%Q /\ (q < qpow b (floor_log b q + 1))%Q) /\
+  forall n, n <= floor_log b q <-> (qpow b n <= q)%Q.
+Proof. intros b q Hb Hq. split; [exact (floor_log_spec b q Hb Hq) | exact (floor_log_greatest b q Hb Hq)]. Qed.
+Print Assumptions C17_floor_log_is_floor_of_log.
+
+Theorem C17_ceil_log_is_ceil_of_log : forall b q, 2 <= b -> (0 < q)%Q ->
+  ((qpow b (ceil_log b q - 1) < q)%Q /\ (q <= qpow b (ceil_log b q))%Q) /\
+  forall n, ceil_log b q <= n <-> (q <= qpow b n)%Q.
+Proof. intros b q Hb Hq. split; [exact (ceil_log_spec b q Hb Hq) | exact (ceil_log_least b q Hb Hq)]. Qed.
+Print Assumptions C17_ceil_log_is_ceil_of_log.
+
+Example C17_floor_ceil_log_example :
+  floor_log 10 (20000 # 1) = 4 /\ ceil_log 10 (20000 # 1) = 5 /\ floor_log 10 (3 # 1000) = -3 /\ ceil_log 10 (3 # 1000) = -2 /\
+  floor_log 2 (1 # 8) = -3 /\ ceil_log 2 (1 # 8) = -3 /\ floor_log 16 1 = 0 /\ ceil_log 16 1 = 0.
+Proof. vm_compute. repeat split; reflexivity. Qed.
 
 (* Nice never shrinks the domain (any sign, any options; when no level fits, or the nice
    bound would not be a positive finite float64, the end stays), and an end that moves lands
